@@ -81,7 +81,10 @@ def case(chk, i):
         # all but the last header are passed the way the CLI does it: -include
         # what is generated has no bearing on what was read: restricted --generate lists, allowlists and blocklists leave the depfile alone
         gen_flags = rng.choice([[], [], ["--generate", "types"], ["--generate", "types,functions"], ["--generate", "functions"], ["--ignore-functions"],
-                                ["--allowlist-type", "s1"], ["--blocklist-type", "s.*", "--blocklist-item", "e.*"], ["--generate", "vars"]])
+                                ["--allowlist-type", "s1"], ["--blocklist-type", "s.*", "--blocklist-item", "e.*"], ["--generate", "vars"],
+                                # a blocklisted / not allowlisted FILE is still read (its macros and types shape everything else)
+                                ["--blocklist-file", ".*f[0-9]*[13579]\\.h"], ["--blocklist-file", ".*/sub/.*"], ["--blocklist-file", ".*"],
+                                ["--allowlist-file", ".*f0\\.h"], ["--blocklist-file", ".*twin.*", "--blocklist-file", ".*spaces.*"]])
         obs["restricted_generation"] = int(bool(gen_flags))
         cmd = [build.BINDGEN, roots[-1], "--depfile", depfile, "-o", out_rs] + gen_flags + ["--"] + cargs
         for r in roots[:-1]:
